@@ -20,6 +20,7 @@ Fixpoint view18 (t : PS.ty) : TL.tyview :=
   | PS.TSlice e => TL.VSlice (view18 e)
   | PS.TArray n e => TL.VArray n (view18 e)
   | PS.TMap k v => TL.VMap (view18 k) (view18 v)
+  | PS.TAlias _ _ r => view18 r      (* typesx.FromTType hands the dumper the alias's right-hand side *)
   end.
 
 Fixpoint ast18 (o : PS.oty) : TL.tyast :=
@@ -40,6 +41,7 @@ Fixpoint wf18 (t : PS.ty) : bool :=
   | PS.TNamed pkg name _ _ => negb (is_nil pkg) && TL.is_ident name
   | PS.TPtr e | PS.TSlice e | PS.TArray _ e => wf18 e
   | PS.TMap k v => wf18 k && wf18 v
+  | PS.TAlias _ _ r => wf18 r
   | _ => true
   end.
 
